@@ -1976,7 +1976,12 @@ func (s *SweepingProvider) individualProvide(prefix bitstr.Key, keys []mh.Multih
 			// Put the key back in the provide queue.
 			s.failedProvide(prefix, keys, fmt.Errorf("individual provide failed for prefix '%s', %w", prefix, err))
 		}
-		if reprovide && err == nil {
+		if reprovide && err == nil && len(coveredPrefix) >= len(prefix) {
+			// Only narrow the scheduled prefix here. Scheduling a covered prefix
+			// shorter than the one being reprovided would unschedule the sibling
+			// prefixes it subsumes, although their keys were not reprovided, and
+			// they would skip a reprovide cycle. Regions are merged by
+			// batchReprovide, which reprovides all keys matching the covered prefix.
 			prefix = coveredPrefix
 		}
 		provideErr = err
